@@ -119,7 +119,8 @@ impl Framed {
     pub fn write<P: Into<Packet>>(&mut self, packet: P) -> Result<()> {
         let buf = self.codec.encode(&packet.into())?;
         if !buf.is_empty() {
-            let _ = self.inner.write(&buf)?;
+            // write() may accept only part of the frame
+            self.inner.write_all(&buf)?;
         }
 
         Ok(())
